@@ -281,6 +281,16 @@ func r1snn(c *core.Ctx) {
 	phi, ok := sn.(*ssa.Phi)
 	pad := `((((` + `"5G:mnc0"+p1)+".mcc")+p2)+".3gppnetwork.org")`
 	nopad := `((((` + `"5G:mnc"+p1)+".mcc")+p2)+".3gppnetwork.org")`
+	if !ok {
+		// one expression for both MNC lengths: "…" + x + "…", fmt.Sprintf, or a helper returning one
+		if t := strTemplate(p, sn, 0, nil); t != nil {
+			good := len(t) == 5 && t[0].arg == "" && t[0].lit == "5G:mnc" && t[1].arg == "p1" && t[1].pad0 == 3 && t[1].pad == 0 &&
+				t[2].arg == "" && t[2].lit == ".mcc" && t[3].arg == "p2" && t[3].pad == 0 && (t[3].pad0 == 0 || t[3].pad0 == 3) &&
+				t[4].arg == "" && t[4].lit == ".3gppnetwork.org"
+			c.Check(good, R, "RegisterUE:serving-network-name", ds[0].Pos(), tmplString(t), "the serving network name must be 5G:mnc<MNC, zero-padded to 3 digits>.mcc<MCC>.3gppnetwork.org (TS 24.501 9.12.1) with p1 = mnc and p2 = mcc of RegisterUE; it is %s", tmplString(t))
+			return
+		}
+	}
 	if !ok || len(phi.Edges) != 2 {
 		c.SoftUndecided("RegisterUE: serving network name is not a two-way choice (%s)", clip(p.Path(sn)))
 		return
